@@ -98,6 +98,18 @@ type recCase struct {
 	// Prior: records with the same attributes (reversed order, other messages) issued on other
 	// loggers of every format right before the call; their output is not judged
 	Prior bool `json:"prior,omitempty"`
+	// NameQ: Go-quoted logger name used instead of "lg" when Named (a name is a string-like value too)
+	NameQ string `json:"logger_name,omitempty"`
+}
+
+// loggerName returns the name a Named case gives its logger.
+func (rc recCase) loggerName() string {
+	if rc.NameQ != "" {
+		if s, err := strconv.Unquote(rc.NameQ); err == nil {
+			return s
+		}
+	}
+	return recLoggerName
 }
 
 func (rc recCase) msg() string {
@@ -139,7 +151,7 @@ func emitRecord(rc recCase) (payloads []string, pan string) {
 	}
 	var l slog.Logger
 	if rc.Named {
-		l = slog.New(recLoggerName)
+		l = slog.New(rc.loggerName())
 	} else {
 		l = slog.New()
 	}
@@ -420,6 +432,9 @@ func recSig(rc recCase) string {
 	}
 	if rc.Prior {
 		s += " after-prior-records"
+	}
+	if rc.NameQ != "" {
+		s += " logger=" + rc.NameQ
 	}
 	if rc.Named {
 		s += " named"
